@@ -21,6 +21,44 @@ mod macro_impl;
 
 use emit::Report;
 
+/// where the code under test lives (re-pointed for isolated worker copies)
+pub const REPO_ROOT: &str = "/repo/";
+
+/// addresses written as base58 literals anywhere in the sources of a crate of the tree under test,
+/// read at run time: a constant the code knows about is an input worth trying
+pub fn mined_keys(dir: &str) -> Vec<solana_pubkey::Pubkey> {
+    fn walk(p: &std::path::Path, out: &mut Vec<String>) {
+        if let Ok(rd) = std::fs::read_dir(p) {
+            let mut ents: Vec<_> = rd.flatten().map(|e| e.path()).collect();
+            ents.sort();
+            for e in ents {
+                if e.is_dir() {
+                    walk(&e, out);
+                } else if e.extension().map(|x| x == "rs").unwrap_or(false) {
+                    if let Ok(s) = std::fs::read_to_string(&e) {
+                        out.push(s);
+                    }
+                }
+            }
+        }
+    }
+    let mut srcs = Vec::new();
+    walk(&std::path::Path::new(REPO_ROOT).join(dir), &mut srcs);
+    let mut keys: Vec<solana_pubkey::Pubkey> = Vec::new();
+    for s in srcs {
+        for piece in s.split('"') {
+            if (32..=44).contains(&piece.len()) && piece.bytes().all(|c| c.is_ascii_alphanumeric()) {
+                if let Ok(k) = <solana_pubkey::Pubkey as std::str::FromStr>::from_str(piece) {
+                    if !keys.contains(&k) {
+                        keys.push(k);
+                    }
+                }
+            }
+        }
+    }
+    keys
+}
+
 pub struct Ctx {
     pub tier_thorough: bool,
     pub seed: u64,
